@@ -33,14 +33,17 @@ MAIN = [None, ("lit", "i1"), ("match", "MItem", 1), ("match", "MSubItem", 1), ("
         # a select two levels below the root pattern, under a match and under another select
         ("match_select2", 2), ("match_select2", 1), ("select_select2", 2),
         # ... and three levels below it
-        ("match_select3", 7), ("select_select3", 8)]
+        ("match_select3", 7), ("select_select3", 8),
+        # a nested match asking for a class that is unrelated to the declared type of the attribute: nothing is of that type
+        ("match", "MPart", 1)]
 SUBLISTS = [("i1",), ("i2",), ("i3",), ("i1", "i2"), ("i2", "i1"), ("i1", "i3"), ("i2", "i3"), ("i1", "i2", "i3")]
 ITEMS = ([None, ("lit", "i3"), ("lit", "i1")] + [("any", L) for L in SUBLISTS] + [("all", L) for L in SUBLISTS]
          + [("match", "MItem", 1), ("match", "MItem", 2), ("match", "MSubItem", 1), ("match", "MSubItem", 2),
             ("match_sub", "MSubItem"), ("select", "MItem", 1), ("select", "MSubItem", 1)]
          + [("select_any", L) for L in SUBLISTS[:4]] + [("select_all", L) for L in SUBLISTS[3:5]]
          # empty literal lists: no element can be common with nothing; the same set of elements as nothing is nothing
-         + [("any", ()), ("all", ())])
+         + [("any", ()), ("all", ())]
+         + [("match", "MPart", 1)])
 # a collection of builtin values (labels derived from the tag: 1 -> [x, y], 2 -> [y], 3 -> [])
 LABELS = [("lit", "x"), ("lit", "y"), ("any", ("x",)), ("any", ("x", "z")), ("any", ("z",)), ("all", ("y",)), ("all", ("y", "x")),
           ("all", ())]
